@@ -44,14 +44,23 @@ CASE_TIMEOUT_S = 1500
 HB = {'horizontal': '@horizontal', 'block_dim': '@block_dim'}
 
 
-def mk(rng, kind):
+def kwargs_mode(rng, flags, opts):
+    """as_kwarguments of the hoisting synthesis: positional hoisted actuals on calls that carry keyword arguments
+    are a known finding, exercised in the 'posargs' slot only"""
+    if 'posargs' in opts:
+        return False
+    if flags['keyword_calls']:
+        return True
+    return rng.random() < 0.4
+
+
+def mk(rng, kind, flags, opts):
     """spec of one transformation family"""
     if kind == 'hoist-auto':
         a, t = {}, {}
         if rng.random() < 0.3:
             a['dim_vars'] = ('@hsize',)
-        if rng.random() < 0.4:
-            t['as_kwarguments'] = True
+        t['as_kwarguments'] = kwargs_mode(rng, flags, opts)
         if rng.random() < 0.2:
             t['remap_dimensions'] = False
         return {'name': kind, 'family': kind,
@@ -60,13 +69,13 @@ def mk(rng, kind):
         a, t = {}, {}
         if rng.random() < 0.3:
             a['dim_vars'] = ('@vsize',)
-        if rng.random() < 0.4:
-            t['as_kwarguments'] = True
+        t['as_kwarguments'] = kwargs_mode(rng, flags, opts)
         return {'name': kind, 'family': kind,
                 'steps': [('HoistTemporaryArraysAnalysis', a), ('HoistTemporaryArraysTransformationAllocatable', t)]}
     if kind == 'hoist-all':
         return {'name': kind, 'family': kind,
-                'steps': [('HoistVariablesAnalysis', {}), ('HoistVariablesTransformation', {})]}
+                'steps': [('HoistVariablesAnalysis', {}),
+                          ('HoistVariablesTransformation', {'as_kwarguments': kwargs_mode(rng, flags, opts)})]}
     if kind == 'pool':
         kw = {'block_dim': '@block_dim', 'check_bounds': rng.random() < 0.7,
               'cray_ptr_loc_rhs': rng.random() < 0.35, 'directive': rng.choice([None, 'openacc', 'openmp'])}
@@ -86,35 +95,37 @@ def mk(rng, kind):
     kw = dict(HB, directive=rng.choice([None, 'openacc']), int_kind='jpim')
     if 'Stack' in kind:
         kw['check_bounds'] = rng.random() < 0.8
-    if 'Hoist' in kind and rng.random() < 0.5:
-        kw['as_kwarguments'] = True
+    if 'Hoist' in kind:
+        kw['as_kwarguments'] = True if kind.startswith('SCCS') else kwargs_mode(rng, flags, opts)
     from vlib.checks.c37 import family
     return {'name': kind, 'family': 'scc-' + family(kind), 'steps': [(kind, kw)],
             'shim_contiguous': 'FtrPtr' in kind or 'DirectIdx' in kind}
 
 
+# slot options: 'posargs' hoisting with positional actuals on keyword calls, 'rawkw' raw stack on keyword calls
 ROT = [
-    ('hoist-auto', 'pool'),
-    ('hoist-alloc', 'pool'),
-    ('pool', 'rawstack'),
-    ('hoist-auto', 'SCCVStackPipeline'),
-    ('pool', 'hoist-alloc'),
-    ('hoist-all', 'pool'),
-    ('ftrptr', 'hoist-auto'),
-    ('SCCSStackPipeline', 'hoist-alloc'),
-    ('directidx', 'pool'),
-    ('hoist-auto', 'pool'),
-    ('pool', 'SCCVHoistPipeline'),
-    ('hoist-alloc', 'SCCVStackPipeline'),
-    ('pool', 'hoist-auto'),
-    ('SCCSHoistPipeline', 'pool'),
-    ('hoist-auto', 'SCCSStackPipeline'),
-    ('pool', 'hoist-alloc'),
+    ('hoist-auto', 'pool', ()),
+    ('hoist-alloc', 'pool', ()),
+    ('pool', 'rawstack', ()),
+    ('hoist-auto', 'SCCVStackPipeline', ()),
+    ('pool', 'hoist-alloc', ('posargs',)),
+    ('hoist-all', 'pool', ()),
+    ('ftrptr', 'hoist-auto', ()),
+    ('SCCSStackPipeline', 'hoist-alloc', ()),
+    ('directidx', 'pool', ()),
+    ('hoist-auto', 'pool', ()),
+    ('pool', 'SCCVHoistPipeline', ()),
+    ('hoist-alloc', 'SCCVStackPipeline', ()),
+    ('rawstack', 'hoist-auto', ('rawkw',)),
+    ('SCCSHoistPipeline', 'pool', ()),
+    ('hoist-auto', 'SCCSStackPipeline', ()),
+    ('pool', 'hoist-alloc', ()),
 ]
 
 
 def case_plan(rng, idx):
     r = idx % 16
+    k1, k2, opts = ROT[r]
     flags = {
         'names': rng.choice('AB'),
         'depth': rng.choice([1, 2, 2, 3, 3]),
@@ -128,7 +139,14 @@ def case_plan(rng, idx):
         'max_stmts': rng.choice([2, 3]),
         'branch_calls': True,
     }
-    specs = [mk(rng, k) for k in ROT[r]]
+    if flags['ifs_block_loop']:
+        flags['driver_sections'] = False        # see C37 slot 'drvsec'
+    if 'posargs' in opts or 'rawkw' in opts:
+        flags['keyword_calls'] = True
+        flags['depth'] = max(2, flags['depth'])
+    elif 'rawstack' in (k1, k2) or 'RawStack' in k1 + k2:
+        flags['keyword_calls'] = False
+    specs = [mk(rng, k, flags, opts) for k in (k1, k2)]
     return flags, specs
 
 
